@@ -329,7 +329,7 @@ def snake(kind):
 # Lean emission
 
 WITNESSES = [
-    ("witnessExec", "query Q($v: [Int!] = 1 @d) { ... on T { a } } fragment F($w: Int) on T { a }",
+    ("witnessExec", "query Q($v: [Int!] = 1 @d, $u: Int!) { ... on T { a } } fragment F($w: Int) on T { a }",
      {"experimental_fragment_variables": True}),
     ("witnessSdl", 'schema @d { query: Q }\n"sd" scalar S\n"td" type T { "fd" f("ad" x: Int = 1): Int }\n"id" interface I { f: Int }\n'
                    '"ud" union U = T\n"ed" enum E { "vd" A }\n"nd" input N { "xd" x: Int }\n"dd" directive @d on FIELD',
